@@ -1658,9 +1658,11 @@ int EGLPNUM_TYPENAME_ILLlib_delcols (
 	qslp = lp->O;
 	ncols = qslp->A.matcols;
 
+	/* dellist holds structural column indices (the logical columns of the
+	 * rows are not addressable from outside) */
 	for (i = 0; i < num; i++)
 	{
-		if (dellist[i] < 0 || dellist[i] >= ncols) {
+		if (dellist[i] < 0 || dellist[i] >= qslp->nstruct) {
 			rval = 1;
 			ILL_CLEANUP;
 		}
